@@ -191,6 +191,17 @@ def gen_mean(rng, k, forced=None):
         if r * c > 0:
             re, im = resultant(a, w)
             rl = np.hypot(re, im)
+            if c > 1 and rl.min() <= 1e-8 * np.abs(w).sum():
+                continue
+            if c > 1 and rng.random() < 0.3:
+                # magnitudes: the property quantifies over every weight vector whose resultant is at least 1e-6 long,
+                # not only over normalised ones.  Scale the weights so that the shortest row resultant lands
+                # log-uniformly in [2e-6, 1e-2] (small, e.g. unnormalised particle weights) or in [1e2, 1e8] (large)
+                L = 10.0 ** (rng.uniform(math.log10(2e-6), -2.0) if rng.random() < 0.75 else rng.uniform(2.0, 8.0))
+                w = w * (L / rl.min())
+                wkind = wkind + "_scaled"
+                re, im = resultant(a, w)
+                rl = np.hypot(re, im)
             if c > 1 and rl.min() < 1e-6:
                 continue
             if flavour == "symmetric":
